@@ -1256,8 +1256,9 @@ def falsify(rec, rng):
     import copy
     r = copy.deepcopy(rec)
     if r['kind'] == 'wls':
-        if r['ret']['err'] or not r['ret']['acoeff']:
-            return None                          # (skipped: not full rank)
+        Aw = np.array(r['A'], dtype=float) * np.array(r['s'], dtype=float)[:, None]
+        if r['ret']['err'] or not r['ret']['acoeff'] or np.linalg.matrix_rank(Aw) < Aw.shape[1]:
+            return None                          # (not full rank: nothing is demanded of such a record)
         m = rng.randrange(6)
         if m == 0:
             q = r['ret']['acoeff'][rng.randrange(len(r['ret']['acoeff']))]
